@@ -91,7 +91,20 @@ struct type_info { int id; };
 _Bool g_f_open, g_f_flushed, g_f_renamed, g_f_order_bad; unsigned long g_f_writes_after_rename, g_f_nrename;
 /* names: the path a file was opened under = <base> + <suffix> (the last concatenation); it may only be renamed to <base> */
 unsigned long g_f_path, g_f_base, g_f_suffix; _Bool g_f_name_bad;
-void ofstream__open(struct ofstream *f, cstring path) { if (g_exc) return; if (path.id != g_cc.r) g_f_name_bad = 1; g_f_path = path.id; g_f_base = g_cc.a; g_f_suffix = g_cc.b;
+/* std::ios_base::openmode constants (libstdc++ values) and open(path, mode): an ofstream adds 'out'; the file is truncated unless app or in is given ([filebuf.members]) */
+#define g_app 1
+#define g_ate 2
+#define g_binary 4
+#define g_in 8
+#define g_out 16
+#define g_trunc 32
+void ofstream__open1(struct ofstream *f, cstring path);
+static inline void ofstream__open2(struct ofstream *f, cstring path, int mode) {
+  __CPROVER_assert((mode & (g_app | g_in)) == 0 || (mode & g_trunc) != 0, "the .part file is created empty: opened for truncation (no app / in without trunc), so bytes left by a dead process are not kept");
+  ofstream__open1(f, path); }
+#define OFS_OPEN_SEL(_1, _2, _3, N, ...) N
+#define ofstream__open(...) OFS_OPEN_SEL(__VA_ARGS__, ofstream__open2, ofstream__open1, 0)(__VA_ARGS__)
+void ofstream__open1(struct ofstream *f, cstring path) { if (g_exc) return; if (path.id != g_cc.r) g_f_name_bad = 1; g_f_path = path.id; g_f_base = g_cc.a; g_f_suffix = g_cc.b;
   if (nondet_bool()) { f->failed = 1; f->open_ = 0; return; } f->open_ = 1; f->failed = 0; g_f_open = 1; g_f_flushed = 0; g_f_renamed = 0; }
 _Bool ofstream__fail(struct ofstream *f) { return f->failed; }
 _Bool ofstream__is_open(struct ofstream *f) { return f->open_; }
